@@ -25,6 +25,10 @@ class ProbeError(Exception):
     pass
 
 
+class ProbeAbort(BaseException):
+    """Not an Exception: passes `except Exception` clauses inside malt (convert().wrapper, converted_call)."""
+
+
 class Log(object):
     """Probe events of one thread; keeps every observed context object alive so that id() stays unique."""
 
@@ -70,6 +74,7 @@ class Node(object):
         self.log = log
         self.catch = catch
         self.raises = raises
+        self.exc_type = ProbeAbort if raises == 2 else ProbeError
         self.children = []
 
     @property
@@ -80,7 +85,7 @@ class Node(object):
         if w == 'plain':
             return body
         if w == 'cvt':
-            return malt.convert(recursive=k['rec'], user_requested=k['ur'])(body)
+            return malt.convert(recursive=k['rec'], user_requested=k['ur'])(LAM if k.get('lam') else body)
         if w == 'dnc':
             return malt.experimental.do_not_convert(body)
         if w == 'uns':
@@ -103,7 +108,7 @@ def body(n):
         probe(c, 'pre')
         try:
             c.fn(c)
-        except Exception:
+        except BaseException:
             if not c.catch:
                 raise
             probe(c, 'caught')
@@ -111,8 +116,11 @@ def body(n):
             probe(c, 'post')
     if n.raises:
         probe(n, 'raise')
-        raise ProbeError(n.name)
+        raise n.exc_type(n.name)
     probe(n, 'out')
+
+
+LAM = lambda n: body(n)    # converted through with_function_scope; keep alone on its line (source recovery)
 
 
 def build(tree, log):
@@ -134,7 +142,7 @@ def run_tree(tree, log, driver_raises=False):
     root.raises = driver_raises
     try:
         body(root)
-    except Exception as e:
+    except (Exception, ProbeAbort) as e:
         return type(e).__name__
     return ''
 
